@@ -57,6 +57,8 @@ class Gen:
 
     def w_time(self, for_until=False):
         r = self.rng
+        if self.allow_inf and r.random() < 0.12:
+            return r.choice([['after', 'inf'], ['moment', 'inf'], ['delay', 'inf'], ['before', 'inf']])
         c = r.random()
         if c < 0.45:
             return ['delay', r.choice([0, 1, 1, 2, 2, 3, 4, 5])]
